@@ -230,7 +230,8 @@ class FanBeamGeometry(DivergentBeamGeometry):
         if np.array_equiv(src_to_det_init, 0):
             raise ValueError('`src_to_det_init` cannot be the zero vector')
         else:
-            src_to_det_init /= np.linalg.norm(src_to_det_init)
+            src_to_det_init = (src_to_det_init
+                               / np.linalg.norm(src_to_det_init))
 
         # Initialize stuff
         self.__src_to_det_init = src_to_det_init
@@ -974,7 +975,8 @@ class ConeBeamGeometry(DivergentBeamGeometry, AxisOrientedGeometry):
         if np.linalg.norm(src_to_det_init) == 0:
             raise ValueError('`src_to_det_init` cannot be zero')
         else:
-            src_to_det_init /= np.linalg.norm(src_to_det_init)
+            src_to_det_init = (src_to_det_init
+                               / np.linalg.norm(src_to_det_init))
 
         # Get stuff out of kwargs, otherwise upstream code complains
         # about unknown parameters (rightly so)
